@@ -36,6 +36,7 @@ type Plan struct {
 	FailShort    bool  // if op K is a write: short write, then error
 	FailFrom     int   // every op with K >= FailFrom of kind FailKind fails (disk full)
 	FailKind     string
+	FailKinds    map[string]bool // with FailFrom: the operation kinds that fail (overrides FailKind)
 }
 
 // State is the per-process bookkeeping (stored in simrt.Proc.Data).
@@ -78,6 +79,10 @@ func curProc() *simrt.Proc {
 var Watch func(op Op)
 
 var ErrInjected = syscall.EIO
+
+// DiskFull is the set of operation kinds that fail when the disk is full.
+var DiskFull = map[string]bool{"write": true, "writefile": true, "createtemp": true, "create": true, "mkdir": true, "mkdirall": true, "symlink": true, "link": true}
+
 
 func die(p *simrt.Proc) {
 	if simrt.Self() != nil {
@@ -122,7 +127,13 @@ func begin(name, path string, mut bool, size int) (*simrt.Proc, error, bool) {
 	}
 	st.Log = append(st.Log, Op{k, name, path, mut, size})
 	var err error
-	if pl.FailAt == k || (pl.FailFrom > 0 && k >= pl.FailFrom && (pl.FailKind == "" || pl.FailKind == name)) {
+	failFrom := pl.FailFrom > 0 && k >= pl.FailFrom
+	if failFrom && pl.FailKinds != nil {
+		failFrom = pl.FailKinds[name]
+	} else if failFrom {
+		failFrom = pl.FailKind == "" || pl.FailKind == name
+	}
+	if pl.FailAt == k || failFrom {
 		e := pl.FailErr
 		if e == nil {
 			e = ErrInjected
